@@ -109,6 +109,10 @@ def make_scenario(case):
             b.setdefault("stdout", "out-%d\n" % i)
         if b:
             beh[ids[i]] = b
+    for i in case.get("leftover_at_clock") or []:
+        # what a run that failed within the same second left behind: directories with the next ids the clock will produce
+        for dt in range(0, n):
+            pre_tree[os.path.join("cond-out", pkgs[i], "t%d.task.%d" % (i, 1_700_000_000 + dt), "partial.txt")] = "output of a failed execution\n"
     cached = case.get("cached") or {}
     if isinstance(cached, list):
         cached = {str(i): None for i in cached}
@@ -292,10 +296,37 @@ def mon_order(s):
     started = {}
     for seq, node, how in s.starts:
         started.setdefault(node, []).append(seq)
+    planned = set(started) | {node for _, node, _, _ in s.skips}
+
+    def linked(x, d):
+        """x reaches d along declared dependencies through tasks that all have an operation in this invocation (executed or
+        skipped).  If not, every path passes a task whose cached result pruned it - and everything below it - from the plan."""
+        seen, stack = set(), [x]
+        while stack:
+            y = stack.pop()
+            for z in s.g[y]:
+                if z == d:
+                    return True
+                if z in planned and z not in seen:
+                    seen.add(z)
+                    stack.append(z)
+        return False
+
     for node, seqs in started.items():
         for d in ref.transitive_deps(s.g, node):
             if d not in started:
                 continue  # not executed in this invocation
+            if not linked(node, d):
+                # The statement still applies (d is executed in this invocation and node transitively depends on it), but this is
+                # a separate, recorded finding: keyed apart so that it can never hide an ordering fault between linked tasks.
+                for sx in seqs:
+                    for sd in started[d]:
+                        after = sorted(e for e in ends.get(d, []) if e[0] > sd)
+                        if sd > sx or not after or after[0][0] > sx or not after[0][1]:
+                            v.append(("order:only-through-cached-tasks",
+                                      "%s started without waiting for the success of %s, which it depends on only through tasks satisfied "
+                                      "by cached results (%s ran in this invocation for another dependent)" % (s.ids[node], s.ids[d], s.ids[d])))
+                continue
             for sx in seqs:
                 for sd in started[d]:
                     if sd > sx:
